@@ -15,7 +15,7 @@ from ..astutil import calls_in, dotted, name_stores, names_in, test_atoms, unpar
 from ..cfg import no_exc
 from ..report import Registry, chain, sub
 from ._helpers_rules_d import call_nodes, callee_is, guard_atom_set, kw
-from ._helpers_rob_i import position_of, positional_reads
+from ._helpers_rob_i import position_of, positional_reads, resolved_guard_atoms
 
 R = Registry(
     "C11",
@@ -200,7 +200,7 @@ def r2(ctx):
             # guard of the fast path
             g = ctx.cfg(f)
             nodes = g.nodes_containing(c)
-            atoms = set().union(*[guard_atom_set(g, n) for n in nodes]) if nodes else set()
+            atoms = set().union(*[resolved_guard_atoms(g, n, f.node) for n in nodes]) if nodes else set()
             need = {("cols_are_ordered", True), ("num_ctx_cols == len(cursor_description)", True), ("textual_ordered", False)}
             alt = {("cols_are_ordered", True), ("len(cursor_description) == num_ctx_cols", True), ("textual_ordered", False)}
             ctx.check(good and (need <= atoms or alt <= atoms), key,
@@ -335,11 +335,14 @@ def r3(ctx):
         fm = cls.methods.get(mname)
         ctx.require(fm is not None, f"{CRM}.{mname} not found")
         gm = ctx.cfg(fm)
+        # the record's position: a local bound to rec[MD_INDEX] / rec[0], or that subscript used directly
         ixn = {n for n, v, s in name_stores(fm.node) if isinstance(v, ast.Subscript) and _slot(v, md) == md["MD_INDEX"]}
+        ixn |= {unparse(x) for x in walk_local(fm.node) if isinstance(x, ast.Subscript) and isinstance(x.ctx, ast.Load) and _slot(x, md) == md["MD_INDEX"]
+                and isinstance(x.value, ast.Name)}
         amb = call_nodes(gm, lambda c: callee_is(c, "self._raise_for_ambiguous_column_name"))
         good = bool(ixn) and bool(amb) and all(any((f"{i} is None", True) in guard_atom_set(gm, n) for i in ixn) for n in amb)
         # the position / record is handed out only past the test
-        outs = [n.id for n in gm.nodes if n.kind == "stmt" and ((isinstance(n.stmt, ast.Return) and n.stmt.value is not None and dotted(n.stmt.value) in ixn)
+        outs = [n.id for n in gm.nodes if n.kind == "stmt" and ((isinstance(n.stmt, ast.Return) and n.stmt.value is not None and (dotted(n.stmt.value) in ixn or unparse(n.stmt.value) in ixn))
                                                                 or (isinstance(n.stmt, ast.Expr) and isinstance(n.stmt.value, ast.Yield)))]
         tests = [n.id for n in gm.nodes if n.kind == "test" and any(a == f"{i} is None" for i in ixn for a, p in test_atoms(n.stmt.test))]
         w = None
@@ -380,12 +383,27 @@ def r4(ctx):
         f = cls.methods.get(mname)
         ctx.require(f is not None, f"{CRM}.{mname} not found")
         good = False
+        # (`keymap = self._keymap` is the same dict under another name)
+        kms = {"self._keymap"} | {n for n, v, s in name_stores(f.node) if v is not None and dotted(v) == "self._keymap"}
         for t in [n for n in walk_local(f.node) if isinstance(n, ast.Try)]:
-            reads = any(isinstance(x, ast.Subscript) and dotted(x.value) == "self._keymap" for s in t.body for x in ast.walk(s))
+            reads = any(isinstance(x, ast.Subscript) and dotted(x.value) in kms for s in t.body for x in ast.walk(s))
             for h in t.handlers:
                 if reads and h.type is not None and "KeyError" in unparse(h.type) and any(callee_is(c, "_key_fallback") for s in h.body for c in calls_in(s)):
                     good = True
-        ctx.check(good, f"{f.key}:unknown-key-to-key_fallback", f"{mname} does not route a KeyError from self._keymap[key] to _key_fallback", "except KeyError: _key_fallback(...)", f.loc)
+        how = "except KeyError: _key_fallback(...)"
+        if not good:
+            # the same lookup spelt `rec = self._keymap.get(key)` / `if rec is None: _key_fallback(...)` (records are tuples, never None);
+            # every subscript read of the keymap must then be gone, and the fallback must dominate every use of the record
+            gq = ctx.cfg(f)
+            got = {n for n, v, s in name_stores(f.node) if isinstance(v, ast.Call) and isinstance(v.func, ast.Attribute) and v.func.attr == "get" and dotted(v.func.value) in kms and len(v.args) == 1}
+            direct = [x for x in walk_local(f.node) if isinstance(x, ast.Subscript) and isinstance(x.ctx, ast.Load) and dotted(x.value) in kms]
+            fb = call_nodes(gq, lambda c: callee_is(c, "_key_fallback"))
+            if got and not direct and fb and all(any((f"{r} is None", True) in guard_atom_set(gq, n) for r in got) for n in fb):
+                tests = [n.id for n in gq.nodes if n.kind == "test" and any(a == f"{r} is None" for r in got for a, p in test_atoms(n.stmt.test))]
+                uses = [n.id for n in gq.nodes if n.kind == "stmt" and any(isinstance(x, ast.Subscript) and isinstance(x.value, ast.Name) and x.value.id in got for x in ast.walk(n.stmt))]
+                good = bool(uses) and all(gq.always_preceded(u, tests, edge_ok=no_exc) is None for u in uses)
+                how = "rec = self._keymap.get(key); if rec is None: _key_fallback(...)"
+        ctx.check(good, f"{f.key}:unknown-key-to-key_fallback", f"{mname} does not route a KeyError from self._keymap[key] to _key_fallback", how, f.loc)
     kf = cls.methods.get("_key_fallback")
     ctx.require(kf is not None, "_key_fallback not found")
     g = ctx.cfg(kf)
@@ -449,3 +467,106 @@ R.mutant("benign-rename-dupes", CUR, chain(
     sub("                        for key in dupes\n", "                        for key in ambiguous_keys\n")), None)
 R.mutant("benign-index-for-key-uses-constant", CUR, sub("        index = rec[0]\n\n        if index is None:\n            self._raise_for_ambiguous_column_name(rec)\n        return index\n", "        position = rec[MD_INDEX]\n        if position is None:\n            self._raise_for_ambiguous_column_name(rec)\n        return position\n"), None)
 R.mutant("benign-merge-by-none-logging", CUR, sub("            if driver_column_names:\n                assert untranslated is not None\n                self._keys.append(untranslated)\n            else:\n                self._keys.append(colname)\n\n            yield (\n                idx,\n                None,\n", "            if driver_column_names:\n                assert untranslated is not None\n                self._keys.append(untranslated)\n            else:\n                self._keys.append(colname)\n            _seen = len(self._keys)\n\n            yield (\n                idx,\n                None,\n"), None)
+R.mutant('benign-rfI_1-match-map-get-and-unpack', CUR, chain(
+    sub('            try:\n'
+             '                ctx_rec = match_map[colname]\n'
+             '            except KeyError:\n'
+             '                mapped_type = sqltypes.NULLTYPE\n'
+             '                obj = None\n'
+             '                result_columns_idx = None\n'
+             '            else:\n'
+             '                obj = ctx_rec[1]\n'
+             '                mapped_type = ctx_rec[2]\n'
+             '                result_columns_idx = ctx_rec[3]\n',
+        '            # match_map values are always 4-tuples, so None means "no match"\n'
+             '            matched_rec = match_map.get(colname)\n'
+             '            if matched_rec is not None:\n'
+             '                _, obj, mapped_type, ridx = matched_rec\n'
+             '            else:\n'
+             '                mapped_type = sqltypes.NULLTYPE\n'
+             '                obj = None\n'
+             '                ridx = None\n'),
+    sub('                self._keys.append(colname)\n'
+             '            yield (\n'
+             '                idx,\n'
+             '                result_columns_idx,\n',
+        '                self._keys.append(colname)\n'
+             '            yield (\n'
+             '                idx,\n'
+             '                ridx,\n')), None)
+R.mutant('benign-rfI_2-textual-position-inverted-and-aliases', CUR, chain(
+    sub('        seen = set()\n',
+        '        seen_objs = set()\n'),
+    sub('            if idx < num_ctx_cols:\n'
+             '                ctx_rec = result_columns[idx]\n'
+             '                obj = ctx_rec[RM_OBJECTS]\n'
+             '                ridx = idx\n'
+             '                mapped_type = ctx_rec[RM_TYPE]\n'
+             '                if obj[0] in seen:\n'
+             '                    raise exc.InvalidRequestError(\n'
+             '                        "Duplicate column expression requested "\n'
+             '                        "in textual SQL: %r" % obj[0]\n'
+             '                    )\n'
+             '                seen.add(obj[0])\n',
+        '            if idx >= num_ctx_cols:\n'
+             '                # cursor.description has more columns than were requested\n'
+             '                mapped_type = sqltypes.NULLTYPE\n'
+             '                obj = None\n'
+             '                ridx = None\n'
+             '\n'
+             '                result_name = colname\n'
+             '            else:\n'
+             '                ctx_rec = result_columns[idx]\n'
+             '                obj = ctx_rec[RM_OBJECTS]\n'
+             '                ridx = idx\n'
+             '                mapped_type = ctx_rec[RM_TYPE]\n'
+             '                first_obj = obj[0]\n'
+             '                if first_obj in seen_objs:\n'
+             '                    raise exc.InvalidRequestError(\n'
+             '                        "Duplicate column expression requested "\n'
+             '                        f"in textual SQL: {first_obj!r}"\n'
+             '                    )\n'
+             '                seen_objs.add(first_obj)\n'),
+    sub('                # cursor.description name as the key and not what the\n'
+             '                # Column has, see\n'
+             '                # test_resultset.py::PositionalTextTest::test_via_column\n'
+             '                if (\n'
+             '                    uses_denormalize\n'
+             '                    and unnormalized == ctx_rec[RM_RENDERED_NAME]\n'
+             '                ):\n'
+             '                    result_name = unnormalized\n'
+             '                else:\n'
+             '                    result_name = colname\n'
+             '            else:\n'
+             '                mapped_type = sqltypes.NULLTYPE\n'
+             '                obj = None\n'
+             '                ridx = None\n'
+             '\n'
+             '                result_name = colname\n',
+        '                # cursor.description name as the key and not what the\n'
+             '                # Column has, see\n'
+             '                # test_resultset.py::PositionalTextTest::test_via_column\n'
+             '                result_name = colname\n'
+             '                if uses_denormalize:\n'
+             '                    if unnormalized == ctx_rec[RM_RENDERED_NAME]:\n'
+             '                        result_name = unnormalized\n')), None)
+# further benign variants of the same families (rob-I)
+R.mutant("benign-index-for-key-get-instead-of-try", CUR,
+         sub("        try:\n            rec = self._keymap[key]\n        except KeyError as ke:\n            x = self._key_fallback(key, ke, raiseerr)\n            assert x is None\n            return None\n\n        index = rec[0]\n",
+             "        keymap = self._keymap\n        rec = keymap.get(key)\n        if rec is None:\n            x = self._key_fallback(key, KeyError(key), raiseerr)\n            assert x is None\n            return None\n\n        index = rec[0]\n"), None)
+R.mutant("benign-index-for-key-without-local", CUR,
+         sub("        index = rec[0]\n\n        if index is None:\n            self._raise_for_ambiguous_column_name(rec)\n        return index\n",
+             "        if rec[MD_INDEX] is None:\n            self._raise_for_ambiguous_column_name(rec)\n        return rec[MD_INDEX]\n"), None)
+R.mutant("benign-fast-path-named-condition", CUR,
+         sub("        if (\n            num_ctx_cols\n            and cols_are_ordered\n            and not textual_ordered\n            and num_ctx_cols == len(cursor_description)\n            and not driver_column_names\n        ):\n",
+             "        same_count = num_ctx_cols == len(cursor_description)\n        positional = cols_are_ordered and not textual_ordered\n        if num_ctx_cols and positional and same_count and not driver_column_names:\n"), None)
+R.mutant("benign-key-not-found-inverted", RES,
+         sub("        if key in self._keymap:\n            # the index must be none in this case\n            self._raise_for_ambiguous_column_name(self._keymap[key])\n        else:\n            # unknown key\n            if attr_error:\n                try:\n                    self._key_fallback(key, None)\n                except KeyError as ke:\n                    raise AttributeError(ke.args[0]) from ke\n            else:\n                self._key_fallback(key, None)\n",
+             "        if key not in self._keymap:\n            # unknown key\n            if attr_error:\n                try:\n                    self._key_fallback(key, None)\n                except KeyError as ke:\n                    raise AttributeError(ke.args[0]) from ke\n            else:\n                self._key_fallback(key, None)\n        else:\n            # the index must be none in this case\n            self._raise_for_ambiguous_column_name(self._keymap[key])\n"), None)
+# the .get() form must still send the unknown key to _key_fallback
+R.mutant("index-for-key-get-form-swallows-unknown-key", CUR,
+         sub("        try:\n            rec = self._keymap[key]\n        except KeyError as ke:\n            x = self._key_fallback(key, ke, raiseerr)\n            assert x is None\n            return None\n\n        index = rec[0]\n",
+             "        rec = self._keymap.get(key)\n        if rec is None:\n            return None\n\n        index = rec[0]\n"), "C11-R4")
+R.mutant("fast-path-named-condition-without-count-check", CUR,
+         sub("        if (\n            num_ctx_cols\n            and cols_are_ordered\n            and not textual_ordered\n            and num_ctx_cols == len(cursor_description)\n            and not driver_column_names\n        ):\n",
+             "        same_count = num_ctx_cols <= len(cursor_description)\n        if (\n            num_ctx_cols\n            and cols_are_ordered\n            and not textual_ordered\n            and same_count\n            and not driver_column_names\n        ):\n"), "C11-R2")
